@@ -83,8 +83,8 @@ type c13CondRun struct {
 	bypass  []kit.S // states at the evaluation loop's back edge that passed no sink
 	arrived int     // back-edge arrivals
 	bad     []string
-	unknown map[string]bool
 	bf      *kit.BoolFlow
+	corr    *ruCorr
 }
 
 func (r *c13CondRun) note(format string, a ...any) {
@@ -152,7 +152,6 @@ func (r *c13CondRun) run() {
 	st := &kit.Std{F: f}
 	bf := &kit.BoolFlow{Std: st}
 	r.bf = bf
-	r.unknown = map[string]bool{}
 	evalLoops := m.evalLoops(f)
 	if len(evalLoops) == 0 {
 		r.c.Fatalf("%s: no loop over a condition list encloses the condition-state store", f.Name)
@@ -163,9 +162,12 @@ func (r *c13CondRun) run() {
 			strParams = append(strParams, p)
 		}
 	}
+	if len(strParams) != 1 {
+		r.c.Fatalf("%s: expected exactly one string parameter (the id of the node the points belong to), found %d", f.Name, len(strParams))
+	}
 	isNodeParam := func(e ast.Expr) bool {
 		o := kit.ObjOf(info, e)
-		return o != nil && len(strParams) == 1 && o == strParams[0]
+		return o != nil && o == strParams[0]
 	}
 	scen := func(e ast.Expr) (string, bool) {
 		tag, ok := m.condField(f, e)
@@ -316,6 +318,31 @@ func (r *c13CondRun) run() {
 		}
 		return "", false, false
 	}
+	relevantTags := map[string]bool{"operator": true, "valueType": true, "value": true, "valueText": true, "nodeID": true,
+		"pointType": true, "pointKey": true, "conditionType": true, "start": true, "end": true, "weekday": true, "date": true}
+	r.corr = &ruCorr{f: f, pred: func(x ast.Expr) bool {
+		if tag, ok := m.condField(f, x); ok && relevantTags[tag] {
+			return true
+		}
+		// any other configuration field of the current condition (a field
+		// this checker knows nothing about), except its bookkeeping
+		if base, fv, ok := kit.FieldSel(info, x); ok && m.isElemOf(f, base, m.cond) {
+			switch fv {
+			case m.cf["active"], kit.FieldByTag(m.cond, "point", "error"), kit.FieldByTag(m.cond, "point", "description"),
+				kit.FieldByTag(m.cond, "node", "id"), kit.FieldByTag(m.cond, "node", "parent"):
+				return false
+			}
+			return true
+		}
+		if n, ok := m.pointField(f, x); ok && n != "Origin" {
+			return true
+		}
+		if id, ok := x.(*ast.Ident); ok && isNodeParam(id) {
+			return true
+		}
+		return false
+	}}
+	r.corr.hook(st)
 	bf.OnCond = func(cond ast.Expr, s kit.S) kit.S {
 		if other, leaf := c13CompareSink(info, cond, isCondActive); other != nil {
 			r.observe(other, leaf, s)
@@ -358,6 +385,7 @@ func (r *c13CondRun) run() {
 					return nil, []kit.S{s}, true
 				}
 			}
+			r.corr.tag(st, br, s)
 		case kit.BrRange:
 			key := fmt.Sprintf("in:%d", br.Range.Pos())
 			switch {
@@ -396,11 +424,23 @@ func (r *c13CondRun) run() {
 			if i != 0 || f.CalleeFunc(call) != r.aft.aft {
 				return ""
 			}
-			if len(call.Args) != 1 || !pointIs(call.Args[0], "Time") {
-				r.note("the schedule predicate at %s receives `%s` instead of the trigger point's time", f.At(call), f.Str(call.Args[0]))
+			if len(call.Args) != 1 {
 				return ""
 			}
-			return "sched"
+			arg := ast.Unparen(call.Args[0])
+			if c2, isCall := arg.(*ast.CallExpr); isCall {
+				if name, rx, isT := c14TimeMethod(info, c2); isT && (name == "UTC" || name == "Local") {
+					arg = ast.Unparen(rx) // same instant
+				}
+			}
+			if pointIs(arg, "Time") {
+				return "sched"
+			}
+			if c2, isCall := arg.(*ast.CallExpr); isCall && kit.CallIs(info, c2, "time.Now") {
+				r.note("the schedule predicate at %s receives `%s` instead of the trigger point's time", f.At(call), f.Str(call.Args[0]))
+			}
+			return "" // not derivable: the condition value stays unknown
+			
 		}
 	}
 	res := g.Run(r.init, bf.Client())
@@ -424,6 +464,14 @@ func (r *c13CondRun) observe(e ast.Expr, at ast.Node, s kit.S) {
 // verdict compares the observations of one valuation with the expected
 // condition state; skipped=true means "no sink may be reached".
 func (r *c13CondRun) verdict(want bool, skipped bool) (status string, msg string, at ast.Node) {
+	status, msg, at = r.verdict0(want, skipped)
+	if status == "violation" && r.corr != nil && r.corr.any() && len(r.bad) == 0 {
+		return "undecided", "the run depends on a condition over the rule's operands that the checker does not interpret (" + r.corr.String() + "); otherwise: " + msg, at
+	}
+	return
+}
+
+func (r *c13CondRun) verdict0(want bool, skipped bool) (status string, msg string, at ast.Node) {
 	if len(r.bad) > 0 {
 		return "violation", strings.Join(r.bad, "; "), nil
 	}
@@ -845,9 +893,20 @@ func c13R3(c *kit.Ctx, m *ruModel, e *kit.Func, r3, r4 *kit.Rule) *c13Roles {
 		}
 		return []kit.S{s.Set("it", "1")}, []kit.S{s.Del("it").Set("complete", "T")}, true
 	}
+	corr := &ruCorr{f: e, pred: func(x ast.Expr) bool {
+		if isRuleActive(x) {
+			return true
+		}
+		return m.isElemOf(e, x, m.cond) && conj[m.elemRange(e, x)]
+	}}
+	corr.hook(st)
 	res := g.Run(kit.NewS(), bf.Client())
 	if res.Overflow {
 		c.Fatalf("%s: state space overflow in conjunction run", e.Name)
+	}
+	if corr.any() {
+		o.Undecided("the conjunction depends on a condition the checker does not interpret: %s", corr.String())
+		return nil
 	}
 	// ---- R3 verdict
 	seen := map[string]bool{}
@@ -1175,8 +1234,32 @@ func c13Caller(c *kit.Ctx, m *ruModel, e, k *kit.Func, roles *c13Roles, runners,
 				}
 				return nil
 			}
+			bound := map[types.Object]bool{}
+			for _, sx := range sites {
+				for _, l := range sx.stmt.Lhs {
+					if o := kit.ObjOf(k.Info(), l); o != nil {
+						bound[o] = true
+					}
+				}
+			}
+			corr := &ruCorr{f: k, pred: func(x ast.Expr) bool {
+				id, ok := x.(*ast.Ident)
+				if !ok {
+					return false
+				}
+				o := kit.ObjOf(k.Info(), id)
+				return o != nil && bound[o] && kit.IsBoolType(o.Type())
+			}}
+			corr.hook(st)
 			init := kit.NewS().Set("a:ract", ract).Set("a:rchg", rchg)
 			res := g.Run(init, bf.Client())
+			if corr.any() {
+				for _, sx := range sites {
+					sx.ob.Undecided("the action pairing depends on a condition over the evaluator's results that the checker does not interpret: %s", corr.String())
+					sx.bad = true
+				}
+				return
+			}
 			if res.Overflow {
 				c.Fatalf("%s: state space overflow", k.Name)
 			}
@@ -1284,14 +1367,23 @@ func c13R5(c *kit.Ctx, m *ruModel, r5 *kit.Rule) {
 			}
 			return false, false
 		}
+		// class: where a value of the emitted point comes from.  "?" = not
+		// derivable (a local copy, a call result): the instance is then
+		// undecided, never a violation.
 		class := func(x ast.Expr) string {
 			if tag, ok := m.actionField(f, x); ok {
 				return "action." + tag
 			}
-			return "other"
+			if base, fv, ok := kit.FieldSel(info, x); ok && m.isElemOf(f, base, m.action) {
+				return "action field " + fv.Name()
+			}
+			if tv, ok := info.Types[x]; ok && tv.Value != nil {
+				return "constant " + tv.Value.String()
+			}
+			return "?"
 		}
 		var sends []string
-		var badSends []string
+		var badSends, undecSends []string
 		loops := map[*ast.RangeStmt]bool{}
 		ruInspectOwn(f, func(n ast.Node) bool {
 			if rs, ok := n.(*ast.RangeStmt); ok {
@@ -1394,12 +1486,20 @@ func c13R5(c *kit.Ctx, m *ruModel, r5 *kit.Rule) {
 				}
 				return "?"
 			}
+			unknownSrc := false
 			for _, w := range [][2]string{{"Type", "action.pointType"}, {"Value", "action.value"}, {"Text", "action.valueText"}} {
 				got := get(w[0])
 				desc += fmt.Sprintf("%s←%s ", w[0], got)
+				if got == "?" {
+					unknownSrc = true
+				}
 				if got != w[1] {
 					good = false
 				}
+			}
+			if !good && unknownSrc {
+				undecSends = append(undecSends, fmt.Sprintf("%s sends {%s}: a source is not derivable", f.At(call), strings.TrimSpace(desc)))
+				return []kit.S{s.Set("sv", "T")}
 			}
 			if good {
 				sends = append(sends, f.At(call))
@@ -1438,11 +1538,28 @@ func c13R5(c *kit.Ctx, m *ruModel, r5 *kit.Rule) {
 			}
 			return nil, nil, false
 		}
+		corr := &ruCorr{f: f, pred: func(x ast.Expr) bool {
+			_, ok := m.actionField(f, x)
+			return ok
+		}}
+		corr.hook(st)
+		userBranch := st.OnBranch
+		st.OnBranch = func(br kit.Branch, s kit.S) (t, fl []kit.S, handled bool) {
+			t, fl, handled = userBranch(br, s)
+			if !handled {
+				corr.tag(st, br, s)
+			}
+			return
+		}
 		res := g.Run(kit.NewS(), bf.Client())
 		if res.Overflow {
 			c.Fatalf("%s: state space overflow", f.Name)
 		}
 		c.AddValuations(1)
+		if corr.any() {
+			o.Undecided("the set-value path depends on a condition over the action's fields that the checker does not interpret: %s", corr.String())
+			continue
+		}
 		for _, ex := range res.Exits {
 			// leaving the function from inside the loop body without having sent
 			if ex.Return != nil && ex.State.Get("sv") != "T" {
@@ -1458,6 +1575,8 @@ func c13R5(c *kit.Ctx, m *ruModel, r5 *kit.Rule) {
 			o.Undecided("no loop over the action list in %s", f.Name)
 		case len(badSends) > 0:
 			o.Violation("witness: set-value action {pointType: T, value: V, valueText: X, nodeID: N}: %s", strings.Join(uniqStrings(badSends), "; "))
+		case len(undecSends) > 0:
+			o.Undecided("%s", strings.Join(uniqStrings(undecSends), "; "))
 		case missing > 0:
 			o.Violation("witness: set-value action with nodeID and pointType set: a path through the action loop sends nothing to action.nodeID")
 		case len(sends) == 0 || arrived == 0:
@@ -1511,7 +1630,7 @@ func c13Sender(c *kit.Ctx, m *ruModel, sf *kit.Func, r5 *kit.Rule) {
 		}
 		return "", false, false
 	}
-	var fw, bad []string
+	var fw, bad, undec []string
 	st.OnNode = func(n ast.Node, s kit.S) []kit.S {
 		as, ok := n.(*ast.AssignStmt)
 		if !ok || len(as.Lhs) != len(as.Rhs) {
@@ -1528,10 +1647,16 @@ func c13Sender(c *kit.Ctx, m *ruModel, sf *kit.Func, r5 *kit.Rule) {
 			}
 			if base, fv, ok := kit.FieldSel(info, l); ok && kit.ObjOf(info, base) == ptP {
 				if fv == m.pf["Origin"] {
-					if isRuleID(as.Rhs[i]) {
+					r := ast.Unparen(as.Rhs[i])
+					_, isConst := info.Types[r]
+					isConst = isConst && info.Types[r].Value != nil
+					switch {
+					case isRuleID(r):
 						s = s.Set("origin", "rule")
-					} else {
+					case kit.ObjOf(info, r) == types.Object(idP) || isConst:
 						s = s.Set("origin", "other")
+					default:
+						s = s.Set("origin", "?")
 					}
 				} else {
 					s = s.Set("ptmod", "T")
@@ -1558,6 +1683,8 @@ func c13Sender(c *kit.Ctx, m *ruModel, sf *kit.Func, r5 *kit.Rule) {
 			bad = append(bad, fmt.Sprintf("%s forwards the point without the target id", sf.At(call)))
 		case s.Get("idmod") == "T" || s.Get("ptmod") == "T":
 			bad = append(bad, fmt.Sprintf("%s forwards a modified target id or point", sf.At(call)))
+		case s.Get("origin") == "?":
+			undec = append(undec, fmt.Sprintf("%s forwards a point whose Origin comes from a value the checker cannot trace", sf.At(call)))
 		case s.Get("origin") != "rule":
 			bad = append(bad, fmt.Sprintf("%s forwards the point for a foreign target without Origin = rule id", sf.At(call)))
 		default:
@@ -1565,8 +1692,21 @@ func c13Sender(c *kit.Ctx, m *ruModel, sf *kit.Func, r5 *kit.Rule) {
 		}
 		return []kit.S{s.Set("fw", "T")}
 	}
+	corr := &ruCorr{f: sf, pred: func(x ast.Expr) bool {
+		id, ok := x.(*ast.Ident)
+		if !ok {
+			return false
+		}
+		o := kit.ObjOf(info, id)
+		return o != nil && (o == types.Object(idP) || o == types.Object(ptP))
+	}}
+	corr.hook(st)
 	res := g.Run(kit.NewS().Set("a:foreign", "T"), bf.Client())
 	c.AddValuations(1)
+	if corr.any() {
+		o.Undecided("the sender branches on a condition over its parameters that the checker does not interpret: %s", corr.String())
+		return
+	}
 	nofw := 0
 	for _, ex := range res.Exits {
 		if ex.State.Get("fw") != "T" {
@@ -1576,6 +1716,8 @@ func c13Sender(c *kit.Ctx, m *ruModel, sf *kit.Func, r5 *kit.Rule) {
 	switch {
 	case len(bad) > 0:
 		o.Violation("witness: set-value action whose nodeID is another node: %s", strings.Join(uniqStrings(bad), "; "))
+	case len(undec) > 0:
+		o.Undecided("%s", strings.Join(uniqStrings(undec), "; "))
 	case nofw > 0:
 		o.Violation("witness: target id ≠ rule id: a path of %s returns without forwarding the point", sf.Name)
 	case len(fw) == 0:
@@ -1593,6 +1735,8 @@ func c13R6(c *kit.Ctx, m *ruModel, e *kit.Func, r6 *kit.Rule) {
 	o1 := r6.Ob(e, ch.ctorCall, "schedule construction", "the schedule is built from the condition's start, end, weekday and date fields, each reaching its own field of the schedule")
 	if msg := ch.ctorProblem; msg != "" {
 		o1.Violation("%s", msg)
+	} else if msg := ch.ctorUnknown; msg != "" {
+		o1.Undecided("%s", msg)
 	} else {
 		o1.OK("start→%s, end→%s, weekday→%s, date→%s", ch.startF.Name(), ch.endF.Name(), ch.wdF.Name(), ch.dateF.Name())
 	}
